@@ -54,6 +54,9 @@ type memFile struct {
 	faultBurst int
 	counts     [8]int
 	nfaults    int
+
+	lastWriteOff    int64 // offset of the most recent WriteAt
+	finalSyncFailed bool  // an injected sync failure hit the sync that follows a header write
 }
 
 var verifZeros []byte
@@ -136,6 +139,7 @@ func (m *memFile) WriteAt(p []byte, off int64) (int, error) {
 		return 0, &verifIOErr{"write beyond the simulated disk"}
 	}
 	copy(m.data[off:], p[:n])
+	m.lastWriteOff = off
 	if m.record {
 		m.ops = append(m.ops, memOp{kind: memOpWrite, off: off, data: append([]byte(nil), p[:n]...)})
 	}
@@ -189,6 +193,9 @@ func (m *memFile) MUnmap(b []byte) error {
 
 func (m *memFile) Sync(flags vfs.SyncFlag) error {
 	if m.fail(faultSync) {
+		if m.lastWriteOff < 2*verifPageSize {
+			m.finalSyncFailed = true
+		}
 		return &verifIOErr{"sync"}
 	}
 	if m.record {
